@@ -216,7 +216,7 @@ _P_MORE = {
     "C02": "PROVED: Disconnection.disconnect performs its seven steps in the order that keeps the registry and the collections consistent, _disconnect_dependent_lines visits every dependant of every declared collection; the instance replaced by _substitute_virtual_line is left detached (no owner, no share in the adopted collections). PROVED (part 7): Creators._register_line stores a line exactly once under the key Destructors._unregister_line looks for (name / identity / identity within the sub-collection of a fragment's external sequence, collections created on demand), and _unregister_line pops exactly that entry - the sub-collection of an external sequence iff its last fragment leaves - and nothing else. ",
     "C03": "PROVED: Link.is_compatible / _direct / _complement are the stated Boolean functions (an unspecified overlap on EITHER side matches), so that a path and its link meet in both arrival orders; the tags of group lines sharing an identifier are united with their datatypes whatever the order. ",
     "C04": "PROVED: validate_interval (E and F lines, connected or not) raises iff begin > end or `$` is misused, and the record-specific validation of E and F lines applies it to exactly their two intervals; the Field_* contracts pin every datatype with a grammar on ALL strings (a value followed by a newline is refused). ",
-    "C05": "PROVED: disconnect / _disconnect_dependent_lines (order of the steps; every dependant of every declared collection, each once). PROVED (part 7): Destructors._unregister_line (exactly the entry of the removed line leaves the registry); Link.is_compatible / _direct / _complement (the path over a removed link is found through the link from either form). ",
+    "C05": "PROVED: disconnect / _disconnect_dependent_lines (order of the steps; every dependant of every declared collection, each once). PROVED (part 7): Destructors._unregister_line (exactly the entry of the removed line leaves the registry); Link.is_compatible / _direct / _complement (the path over a removed link is found through the link from either form); Disconnection._remove_nonfield_backreferences: every set and path that lists a removed gap has the mention dropped exactly once, and a group left without items is disconnected exactly once iff it is still connected, nothing else (two passes of one loop, invariant with a frame for the collection still to be walked). ",
     "C06": "PROVED: Ordered._find_edge_from_path_to_segment (the edge an O line leaves implicit, with its orientation: what the conversion of an ordered group to a GFA1 path writes). PROVED (part 7): Path._initialize_links records the direction in which each step uses its link (what to_gfa2 writes as the sign of the edge); Ordered._check_gfa1_path_steps: an ordered group has a GFA1 path as counterpart iff every edge of its captured path is a dovetail from the previous to the next oriented segment, read forwards or as its complement (ValueError otherwise; loop invariant over the steps, every length). ",
     "C07": "PROVED: validate_interval raises gfapy errors only; the Field_* contracts hold for every string. ",
     "C08": "PROVED: Multiplication.multiply checks requested copy names (count, names carried by or referred to by a line, repeats) before anything is changed, and raises nothing afterwards; FieldArray._vpush / Multiline.add refuse a contradicting header value before writing; the tag loops of SameID write nothing before the check has passed. PROVED (part 7): Creators._register_line notes a virtual line in the log of the connect in progress iff one is open; Connection._validate_no_reference_to_own_name writes nothing. ",
